@@ -235,6 +235,41 @@ def check_chains(keys, acc):
                 )
 
 
+def check_shared_fields(acc):
+    """Field objects held by more than one entry (copied references, a template entry) or twice by one entry: each
+    middleware treats every entry on its own - what it does to one entry never shows in another."""
+    mws = [
+        ("alphabetical", lambda ip: SortFieldsAlphabeticallyMiddleware(allow_inplace_modification=ip)),
+        ("normalize", lambda ip: NormalizeFieldKeys(allow_inplace_modification=ip)),
+        ("custom:b,a:ci", lambda ip: SortFieldsCustomMiddleware(order=("b", "a"), allow_inplace_modification=ip)),
+    ]
+    for name, make in mws:
+        for ip in (True, False):
+            for pat in (("B", "a", "b"), ("Title", "title"), ("a", "A", "B", "b")):
+                shared = [Field(k, f"v{i}", start_line=i) for i, k in enumerate(pat)]
+                e1 = Entry("article", "k1", list(shared))
+                e2 = Entry("book", "k2", list(reversed(shared)))  # the same Field objects, other order
+                e3 = Entry("misc", "k3", [shared[0], Field("x", "own"), shared[0]])  # one Field object twice
+                lib = Library([e1, e2, e3])
+                case = {"shared_fields": list(pat), "middleware": name, "inplace": ip}
+                acc.trace()
+                acc.case(nontrivial_key=("shared", pat, name, ip))
+                try:
+                    out = make(ip).transform(lib)
+                    solo = [make(ip).transform(Library([Entry(e.entry_type, e.key, [Field(f.key, f.value, f.start_line) for f in src])])).blocks[0] for e, src in ((e1, [Field(k, f"v{i}", i) for i, k in enumerate(pat)]), (e2, list(reversed([Field(k, f"v{i}", i) for i, k in enumerate(pat)]))))]
+                except Exception as ex:
+                    acc.exception(ex, case, name)
+                    continue
+                got = [pairs(b) for b in out.blocks[:2]]
+                exp = [pairs(b) for b in solo]
+                acc.step(("shared", pat, name), ip, repr(got))
+                if name != "normalize" and got != exp:
+                    acc.violation({"oracle": "entries_sharing_field_objects_are_treated_on_their_own", "middleware": name.split(":")[0]}, {"case": case, "observed": got, "expected": exp})
+                elif name == "normalize" and [[v for _, v in g] for g in got] != [[v for _, v in x] for x in exp]:
+                    # (in place, the shared objects are renamed for all holders alike; the VALUES each entry keeps are its own matter)
+                    acc.violation({"oracle": "entries_sharing_field_objects_are_treated_on_their_own", "middleware": "normalize"}, {"case": case, "observed": got, "expected": exp})
+
+
 def check_long_orders(acc, tier):
     """Custom orders of middling length (5 .. 12 keys, thorough .. 20) with entries that hold listed keys from both ends
     of the order and two or three different unlisted keys in every arrangement of up to 4 (5) fields; one instance per
@@ -350,6 +385,7 @@ def run_shard(shard, tier, acc):
         return
     if shard[0] == "longorders":
         check_long_orders(acc, tier)
+        check_shared_fields(acc)
         return
     if shard[0] == "spellings":
         check_spellings(acc, shard[1])
@@ -410,7 +446,9 @@ def run_shard(shard, tier, acc):
 
 
 def replay(case, acc):
-    if "long_order" in case:
+    if "shared_fields" in case:
+        check_shared_fields(acc)
+    elif "long_order" in case:
         check_long_orders(acc, "quick" if case["long_order"] <= 12 and len(case["keys"]) <= 4 else "thorough")
     elif "spelling" in case:
         check_spellings(acc)
